@@ -97,6 +97,33 @@ theorem C02_level_in_range (B E t q : Int) (b : Option Bucket) (hE : 0 ≤ E) (h
   simp only [Bucket.step, Bucket.wf]
   by_cases hx : q * E ≤ Bucket.refill (B * E) b t <;> simp [hx] <;> omega
 
+/-- **no starvation from ANY stored state** - also one left behind by requests with other limits, by
+    denied / zero-quantity / over-burst requests, or by a state that has meanwhile expired: whatever
+    value `v` the store holds for the key (within the range any request in the time domain can have
+    written), a request of quantity `q ≤ max_burst` under limits in D is admitted at every instant
+    `now ≥ v + q·E - τ`, a finite time (and immediately if nothing visible is stored). -/
+theorem C02_no_starvation_any_state {E B : Int} (c : Cell) (r : Req) (hD : DomD E B) (hb : r.burst = B)
+    (hv : r.valid) (hn0 : 0 ≤ r.now) (hn1 : r.now ≤ T_MAX) (hq : r.qty ≤ B)
+    (hrange : ∀ v, Cell.ops.get c r.key r.now = some v → -TWO62 ≤ v ∧ v ≤ V_MAX)
+    (hwait : ∀ v, Cell.ops.get c r.key r.now = some v → v + r.qty * E - (B * E - E) ≤ r.now) :
+    (rateLimitE Cell.ops c E r).2.1.allowed = true := by
+  have hE := hD.hE
+  rw [(rateLimitE_cell c E r hv).2]
+  have hreq : ReqD E B r (Cell.ops.get c r.key r.now) := ⟨hD, hb, hv.1, hn0, hn1, hrange⟩
+  obtain ⟨_, d2, _, _, _, _, d7, _⟩ := decision_D hreq (B * E - E) _ (E * r.qty) rfl rfl rfl
+  rw [d7]
+  apply d2.mpr
+  have hcomm : r.qty * E = E * r.qty := Int.mul_comm _ _
+  have hqE : E * r.qty ≤ B * E := by
+    rw [← hcomm]; exact Int.mul_le_mul_of_nonneg_right hq (by omega)
+  unfold gTat effTat
+  cases hg : Cell.ops.get c r.key r.now with
+  | none => simp only; omega
+  | some v =>
+    have := hwait v hg
+    simp only
+    omega
+
 /-! #### non-vacuity: burst 2, one token per second, idle gap, over-burst and zero-quantity requests -/
 
 def exHist2 : List Req :=
